@@ -42,3 +42,8 @@ CLAIMS["C14"] = {
     "note": "The cfg-exported Cow type is the one behind SharedString / label slices. Miri's sweep is reduced (length <= 2, a third of the shapes at length 2) for time.",
     "technique": "runtime monitoring: reference ownership model (content, refcounts, live destructors) checked after every operation of enumerated and random sequences; ASan/LSan and Miri legs",
 }
+CLAIMS["C06"] = {
+    "text": "Exploration: sequential histories against a reference map with identity-carrying storage doubles (one storage per live (kind,key), no sharing between keys/kinds, truthful delete/retain/clear/listing) under 16, 4 and 1 registry shards; racing creators/getters/deleters with the read-unlock/write-lock window forced by a gate, each per-key sub-history checked for linearizability as a single atomic map entry; Miri re-runs small races. Held = no divergence from the map model and no non-linearizable key history observed.",
+    "note": "Shard counts are varied only through CPU affinity (available_parallelism): 1, 4 and 16. Keys with >= 3 labels and repeated label names are excluded (their equality is order-sensitive by design, see C03).",
+    "technique": "runtime monitoring: reference-map comparison with identity-carrying storage doubles; per-key Wing-Gong linearizability of recorded concurrent histories; gated lock-upgrade window; Miri",
+}
